@@ -160,6 +160,7 @@ def make_exc(name: str):
 
 
 CANCEL_KINDS = ("cancel", "kbd", "sysexit")
+_TERMINAL_EVENTS = {"success", "permanent_fail", "deadline_exceeded", "max_attempts_exceeded", "max_unknown_attempts_exceeded", "no_strategy_configured", "budget_exhausted", "scheduled", "aborted"}
 
 
 class SpyBudget(Budget):
@@ -288,7 +289,7 @@ class Harness:
         self.fault = sc.get("fault")
         self.cur: Rec | None = None
         self.use_abort = bool(sc.get("poll")) or any(
-            c.get("abort_at") is not None or c.get("abort_after_op") is not None or c.get("abort_after_strategy") is not None for c in sc["calls"]
+            c.get("abort_at") is not None or c.get("abort_after_op") is not None or c.get("abort_after_strategy") is not None or c.get("abort_after_terminal") for c in sc["calls"]
         )
         self.n = {}
         self.budget = None
@@ -536,6 +537,8 @@ class Harness:
         ast = rec.env.get("abort_after_strategy")
         if ast is not None and self.n.get("strat", 0) >= ast:
             ans = True  # sticky flag raised while the strategy was computing the ast-th delay
+        if rec.env.get("abort_after_terminal") and any(e_[0] == "metric" and e_[1] in _TERMINAL_EVENTS for e_ in rec.trace):
+            ans = True  # a shutdown flag raised by whoever watches the event stream, once the run has reported its terminal event
         rec.trace.append(("poll", i, ans, self.now()))
         self.cb_fault("abort_if")
         enc = self.sc.get("poll_kind", "bool")
@@ -817,6 +820,9 @@ class Harness:
             ckw["operation"] = self.cfg["operation"]
         if self.use_abort:
             ckw["abort_if"] = self.abort_if
+        for k_ in e.get("drop_call_kw") or ():
+            # this call passes no per-call handler / hook / sleeper although other calls on the same object do
+            ckw.pop(k_, None)
         return ckw
 
     def _reconfigure(self, st):
@@ -877,7 +883,12 @@ class Harness:
                 r = self.obj.execute(op, **ckw)
             elif self.meth == "ctx":
                 with self.obj.context(**ckw) as call:
-                    r = call(op)
+                    if self.sc.get("ctx_decoy"):
+                        # another context object of the same policy is created (and used for nothing) while this one is in use
+                        with self.obj.context(on_log=lambda *a: None):
+                            r = call(op)
+                    else:
+                        r = call(op)
             elif self.kind == "deco":
                 if self.decorated is None:
                     self.decorated = self._deco_build(ckw, op)
@@ -919,6 +930,9 @@ class Harness:
 
             async def viactx():
                 async with h.obj.context(**ckw) as call:
+                    if h.sc.get("ctx_decoy"):
+                        async with h.obj.context(on_log=lambda *a: None):
+                            return await call(aop)
                     return await call(aop)
 
             c = viactx()
